@@ -437,6 +437,18 @@ def make_policy(spec: Dict[str, Any], tids: List[int], k_estimate: int) -> Polic
 # scheduler
 
 
+_HOTNESS: List[Any] = [None]
+
+
+def get_hotness() -> Any:
+    if _HOTNESS[0] is None:
+        from . import hotness
+
+        kit.load_celpy()
+        _HOTNESS[0] = hotness.Hotness()
+    return _HOTNESS[0]
+
+
 class Worker:
     def __init__(self, tid: int, fn: Callable[[], None]) -> None:
         self.tid = tid
@@ -452,6 +464,7 @@ class Worker:
         self.aborted_site: Optional[str] = None
         self.blocked_on: Any = None  # a SimLock this worker waits for
         self.blocks = 0
+        self.hot_profile: Dict[str, int] = {}  # lines executed in functions touching shared state
 
 
 class Scheduler:
@@ -472,6 +485,7 @@ class Scheduler:
         self.hot_switches = 0
         self.lock_blocks = 0
         self.deadlock = False
+        self.hotness = get_hotness()
         self._by_ident: Dict[int, Worker] = {}
 
     def add(self, tid: int, fn: Callable[[], None], abort_at: Optional[int] = None) -> None:
@@ -540,7 +554,10 @@ class Scheduler:
             ws.aborted_site = site_of(code, line, tag)
             ws.abort_at = None
             raise SimAbort(ws.aborted_site)
-        hot = tag == "S" or code.co_qualname in HOT_QUALNAMES
+        hot = tag == "S" or code.co_qualname in HOT_QUALNAMES or self.hotness.is_hot(code)
+        if hot:
+            q = code.co_qualname
+            ws.hot_profile[q] = ws.hot_profile.get(q, 0) + 1
         nxt = self.policy.choose(self, ws, code.co_qualname, hot)
         if nxt is not None and nxt != ws.tid:
             site = site_of(code, line, tag)
